@@ -242,8 +242,21 @@ class Cmp:
                             self.bump("resolved_among_several")
                         if nv >= 1 or nd >= 2:
                             nontrivial = True
-                    if (ct, cc) != (ut, uc) and (pc["canon"].get(ut, ut), uc) != (ct, cc):
+                    ut = pc["canon"].get(ut, ut)
+                    if ut != "-" and int(ut) >= 900:
+                        ut = "EXT"
+                    if (ct, cc) != (ut, uc):
+                        # cannot happen on a disciplined trace (C07_cache_coherent)
                         self.bump("cache_matters")
+                        self.report("model: cached lookup differs from lookup_uncached at site %s although the trace is "
+                                    "disciplined" % sid, c, None, {"model": s}, no_input=True)
+                    # the theorems say: model (uncached) == specification on the family, character-literal sites excepted
+                    uspec_ok = (ut == spec[1:] and uc == "OK") if spec[0] == "D" else (uc == {"CONFLICT": "CONFLICT", "UNDECL": "UNDECL", "ERROR": "ERROR"}[spec])
+                    if not uspec_ok and not is_char_site(des, usage):
+                        self.bump("model_vs_spec")
+                        self.report("Coq model and Coq specification disagree at site %s (C07_resolution_refines_spec excludes this "
+                                    "inside the family: the family predicate or the elaborator glue is wrong)" % sid,
+                                    c, None, {"model": s}, no_input=True)
                     spec_ok = (it == spec[1:] and ic == "OK") if spec[0] == "D" else (ic == {"CONFLICT": "CONFLICT", "UNDECL": "UNDECL", "ERROR": "ERROR"}[spec])
                     model_ok = (it == ct and ic == cc)
                     site = {"sid": sid, "designator": des, "usage": usage, "spec": spec, "model": "%s:%s" % (ct, cc),
@@ -341,8 +354,11 @@ def main(tier, replay=None):
         "identifiers drawn from 4 value names and 3 type names so that homographs are frequent; use clauses `use l.p.all` / "
         "`use l.p.name` in context clauses and declarative parts; use sites: name as value, call with a universal or typed actual, "
         "unary operator, type mark, character literal, recursive call; 70% of the sites are biased towards a probably visible "
-        "declaration. Excluded from the generator (never special-cased in the comparison): two subprograms with EQUAL profiles "
-        "in two packages. non-trivial = program has >= 2 design units and a resolved site whose name is use-visible or has >= 2 "
+        "declaration. Shape restrictions of the generator: types are declared in packages only and type marks in declarations "
+        "are selected names (so only the use-site name is looked up on a line), operator functions take BOOLEAN or enumeration "
+        "operands (no predefined operator competes), a package refers to types of earlier packages only. Excluded from the "
+        "generator (never special-cased in the comparison; the runner's `fam` flag rejects such programs): two subprograms with "
+        "EQUAL profiles in two packages. non-trivial = program has >= 2 design units and a resolved site whose name is use-visible or has >= 2 "
         "visible declarations; distinct by hash of the abstract program")
     res.coverage["trusted_base"] = TRUSTED_BASE_COMMON + [
         "the renderer of abstract programs to VHDL and the map from declaration positions to ids (harness/src/bin/c07.rs)",
@@ -350,11 +366,19 @@ def main(tier, replay=None):
         "and their scope operations are not modelled: they are no homographs of family names",
         "function bodies that complete a package declaration are the same declaration for the comparison (find_declaration maps a body "
         "to its declaration)",
+        "proved: cache coherence on every trace of the elaborator, lookup_uncached == denotes at every point of the family, staged "
+        "disambiguation == unique fitting candidate. NOT proved, tested instead on every generated program (model vs spec at every "
+        "site, plus a vm_compute sample inside Coq): that the frames the elaborator has built at a site are `point_scope` of the "
+        "chain the reference scan has built there (the two scans walk the same flat item list in lockstep)",
     ]
     res.coverage["partial"] = False
     res.assumptions = [
         "LRM 12.3/12.4 reading of Scope.denotes (VHDL-2019: a use clause naming a type also makes its literals visible)",
         "programs with two potentially visible subprograms of equal profile from different packages are outside the family",
         "character-literal expression sites: open finding F23 (implementation performs no lookup)",
+        "reading of 'directly visible declarations hide use-visible ones': a use-visible overloadable is hidden only by declarations that "
+        "are themselves directly visible at the point (an outer non-overloadable homograph that is hidden by an inner overloadable one "
+        "does not block it); this is the validated round-0 reading and what the implementation does; LRM 12.4 a) read literally "
+        "('within the immediate scope of a homograph') would also block it",
     ]
     return res.finish()
